@@ -27,7 +27,7 @@ def chains(func, **kw):
 
 SPECS = [
     # ---- context managers
-    S("variable:VarsManager.temp_params", ["params"], snapshot_exprs=[("{i: self.get(i) for i in params.keys()}", "params")],
+    S("variable:VarsManager.temp_params", ["params"], snapshot_exprs=[("{i: self.get(i, val_in_fit=False) for i in params.keys()}", "params")],
       restore_calls=[("self.set_all", "params")]),
     S("variable:VarsManager.mask_params", ["mask_vars"], snapshot_exprs=[("self.mask_vars", "mask_vars")], restore_assign=[("self.mask_vars", "mask_vars")]),
     S("amp.amp:AbsPDF.temp_params", ["params"], snapshot_calls=[("self.get_params", "params")], restore_calls=[("self.set_params", "params")]),
@@ -52,6 +52,8 @@ SPECS = [
     chains("experimental.build_amp:build_amp_matrix"),
     chains("experimental.build_amp:build_angle_amp_matrix"),
     chains("experimental.opt_int:build_int_matrix"),
+    S("amp.preprocess:CachedShapePreProcessor.build_cached", ["chains_idx", "mask_factor"], snapshot_exprs=CHAINS_SNAP, restore_calls=CHAINS_RESTORE_CALLS, mutate_calls=CHAINS_MUT,
+      cm_calls=CHAINS_CM + [("self.amp.temp_total_gls_one", ["mask_factor"])]),
 ]
 
 
